@@ -300,6 +300,14 @@ def evalBlock (b : Block) (prev : Array (String × Float)) : Array String × Arr
       if !c0.isNaN then out := out.push (vline b "T" "in-cap0" c.name (close 1e-12 0.0 c.cap0 c0) c.cap0 c0)
       if !c1.isNaN then out := out.push (vline b "T" "in-cap1" c.name (close 1e-12 0.0 c.cap1 c1) c.cap1 c1)
     | none => if b.stype != 1 then out := out.push (vline b "T" "in-charge" i.1 false 0 1)   -- (-no_edl keeps no charge structure)
+  -- from here on the charge–potential relations use area, grams and capacitances AS THE INPUT TEXT GIVES THEM
+  let b := { b with charges := b.charges.map fun c =>
+    match b.inC.find? (·.1 == c.name) with
+    | some i =>
+      let (a, g, c0, c1) := i.2
+      { c with area := if a.isNaN then c.area else a, grams := if g.isNaN then c.grams else g,
+               cap0 := if c0.isNaN then c.cap0 else c0, cap1 := if c1.isNaN then c.cap1 else c1 }
+    | none => c }
   for i in b.inS do
     match sites.find? (·.elt == i.1) with
     | some u => if b.state == 3 then out := out.push (vline b "T" "in-sites" u.elt (close 1e-12 0.0 u.moles i.2) u.moles i.2)
@@ -584,7 +592,8 @@ def run : IO Unit := do
         hist := #[]
         lastCase := c
       let mine := if c == zCase then ins.filter (fun l => l.head? == some k) else #[]
-      let inC := mine.filterMap fun l => match l with
+      let allC := if c == zCase then ins else #[]
+      let inC := allC.filterMap fun l => match l with
         | [_, "C", n, a, g, c0, c1] => some (sh n, fh a, fh g, fh c0, fh c1)
         | _ => none
       let inS := mine.filterMap fun l => match l with
